@@ -1140,6 +1140,30 @@ def validation_errors(schema: Any, xml_text: str) -> List[str]:
         return [f"validator raised {type(e).__name__}: {str(e)[:200]}"]
 
 
+def _in_diamond(symbol_table: Any, cname: str) -> bool:
+    """The class reaches one of its ancestors through two different parents (known finding C13-F2: the XSD composes the
+    property groups of all the parents, so the properties of the shared ancestor are expected twice)."""
+    try:
+        cls = next(c for c in symbol_table.classes if str(c.name) == cname)
+    except StopIteration:
+        return False
+
+    def ancestors(c: Any) -> set:
+        out = set()
+        for p in c.inheritances:
+            out.add(str(p.name))
+            out |= ancestors(p)
+        return out
+
+    seen: set = set()
+    for p in cls.inheritances:
+        mine = ancestors(p) | {str(p.name)}
+        if seen & mine:
+            return True
+        seen |= mine
+    return any(_in_diamond(symbol_table, str(p.name)) for p in cls.inheritances)
+
+
 def _reason_class(reason: str) -> str:
     r = reason.lower()
     for key, name in (("pattern", "pattern"), ("length", "length"), ("unexpected child", "unexpected-child"), ("not complete", "incomplete-content"),
@@ -1336,7 +1360,7 @@ def judge_model(ctx: Ctx, b: Built, stream: str, mutants: bool) -> None:
                 if errs:
                     ctx.fail({"model": b.source, "class": cname, "document": xml_text},
                              f"the XSD {ver} schema rejects a document the SDK wrote for an instance satisfying all invariants: {errs[0]}",
-                             "C13:valid-document-rejected:" + _reason_class(errs[0]))
+                             "C13:valid-document-rejected:" + _reason_class(errs[0]) + (":diamond" if _in_diamond(b.symbol_table, cname) else ""))
                     break
             if mutants:
                 from harness.props import c14
